@@ -30,6 +30,7 @@ void model_digest(int type, const unsigned char *msg, size_t len, unsigned char 
         out[ds - 1] = x;
     }
 }
+size_t hm_ctx_len(const void *ctx) { return ((const hm_ctx *)ctx)->len; }
 void lib_hash_ctx_close(zckHash *hash) { free(hash->ctx); }
 bool lib_hash_init(zckCtx *zck, zckHash *hash) {
     int t = hash->type->type;
